@@ -164,6 +164,10 @@ func TestC10(t *testing.T) {
 				if out.Type != ev.Type || !out.CreatedAt.Equal(ev.CreatedAt) {
 					run.Violation("shape:event-fields", "the forwarded event lost its Type or CreatedAt", wit(""))
 				}
+				// the event's own container, the format table, keeps its keys and the values' lengths and contents
+				if len(out.Formatted) != 1 || string(out.Formatted["pre"]) != "formatted" {
+					run.Violation("shape:event-fields", fmt.Sprintf("the forwarded event's format table is %q, the input's holds pre=\"formatted\"", out.Formatted), wit(""))
+				}
 				// (3) public values preserved
 				outV := reflect.ValueOf(out.Payload)
 				keeps := 0
